@@ -1,2 +1,302 @@
-def build_and_prove(run, thorough): return True
-def correspondence(run, tasks, results, thorough): return dict(broken=[], summary={}, first=[])
+"""C18 — Coq side of the check: build + theorems, and the differential run of the guard models (Model/ReaderGuards.v) and of
+S (Spec/RobustSpec.v) against what the real readers did on the inputs of this run (harness/c18.py).
+
+Case files coq/Gen/Cases_C18_<kind>_<k>.v, one kind per file, each ending in `Eval vm_compute in check_all (map <f> cs)`:
+  srt / vtt      (content, oracle, outcome code, attachment flags)     model line machine = reader (+ observed cue-parser results)
+  srtcur/vttcur  (attached, events, outcome code)                       model cursor = _TextParser / _TextCueParser on the observed callbacks
+  srtview/vttview (line, flags)                                         line classifiers = the readers' own regular expressions
+  scc / sccline / sccword                                               SccLine.from_str, SccWord.from_str, reader loop
+  stl            (start cfg, rows cfg, RLE bytes, oracle, outcome code) DataFile.__init__ / process_tti_block / reader loop
+  bint / int16   int(bytes) on 2- and 5-byte fields, int(word, 16)
+  spec           (reader code, downstream codes, harness verdict)       S evaluated on every observed run
+"""
+import os, re, sys, random, collections
+import common as C
+import c18run as R
+
+TARGETS = ["Gen/GuardTables.vo", "Model/Outcome.vo", "Model/ReaderGuards.vo", "Spec/RobustSpec.vo", "Model/GuardCases.vo",
+           "Proofs/C18/SpecLink.vo", "Proofs/C18/Srt.vo", "Proofs/C18/Vtt.vo", "Proofs/C18/Scc.vo", "Proofs/C18/Stl.vo"]
+
+M_CODE = {"ok": 0, "XmlParseError": 10, "ValueError": 11, "StructError": 12, "UnicodeDecodeError": 13, "AttributeError": 20, "TypeError": 21,
+          "IndexError": 22, "KeyError": 23, "UnboundLocalError": 24, "AssertionError": 25, "RecursionError": 26, "ZeroDivisionError": 27,
+          "OverflowError": 28, "RuntimeError": 29}
+S_CODE = {"XmlParseError": 1, "UnicodeDecodeError": 2, "StructError": 3, "ValueError": 4, "AttributeError": 5, "TypeError": 6, "IndexError": 7,
+          "KeyError": 8, "UnboundLocalError": 9, "AssertionError": 10, "RecursionError": 11, "Timeout": 13, "ProcessDied": 13}
+
+
+def build_and_prove(run, thorough):
+    import gen_tables
+    changed, errors = gen_tables.generate({"GuardTables"})
+    if errors:
+        run.violation("table translator failed closed: " + "; ".join(errors), dict(kind="translator", errors=errors), False)
+        return False
+    if changed: run.log("tables regenerated from CPython:", changed)
+    ok, log = run.build(TARGETS, clean=thorough)
+    if not ok:
+        run.proof_log = log[-2500:]; run.cov["obligations"] += 1
+        return False
+    ok = run.theorems()
+    rc, out = C.coqc(C.COQ + "/Findings/C18.v", 600)
+    run.cov["obligations"] += 1
+    if rc == 0: run.cov["discharged"] += 1
+    else:
+        run.proof_log = "Findings/C18.v (refutation witnesses) no longer compiles: " + out[-1500:]; ok = False
+    run.cov["findings_file"] = "coq/Findings/C18.v compiled: witnesses of 13 refuted statements decided by vm_compute" if rc == 0 else "coq/Findings/C18.v FAILED"
+    return ok
+
+
+def outcome_code(res):
+    o = res["outcome"]
+    if o == "doc": return 0
+    if o == "none": return 1
+    return M_CODE.get(o.split(":", 1)[1])
+
+
+def zl(xs): return "[" + ";".join(C.z(x) for x in xs) + "]"
+def tx(s): return "[" + ";".join(str(ord(c)) for c in s) + "]"
+
+
+def rle(data):
+    out = []
+    for b in data:
+        if out and out[-1][1] == b: out[-1][0] += 1
+        else: out.append([1, b])
+    return "[" + ";".join(f"({n},{b})" for n, b in out) + "]"
+
+
+SRT_EV = {"plain": 0, "font-nocolor": 1, "font-color-none": 2, "font-color-bad": 3, "font-color": 4}
+VTT_EV = {"ruby": 0, "rt": 1, "span": 2}
+
+def srt_events(ev):
+    out = []
+    for k, a in ev:
+        out.append(SRT_EV[a] if k == "S" else 5 if k == "E" else 6)
+    return out
+
+def vtt_events(ev):
+    out = []
+    for k, a in ev:
+        if k == "S": out.append(VTT_EV[a])
+        elif k == "T": out.append(3)
+        elif k == "E": out.append(4)
+        elif k == "D": out.append(10 + int(a))
+        else: return None
+    return out
+
+
+def stl_cfg_codes(cfg):
+    st, rw = [0], [0]
+    if cfg:
+        s = cfg.get("program_start_tc")
+        if s == "TCP": st = [1]
+        elif s:
+            m = re.match(r"(\d\d)(.)(\d\d)(.)(\d\d)(.)(\d\d)$", s)
+            df = 0 if (m.group(2), m.group(4), m.group(6)) == (":", ":", ":") else 1
+            st = [2, df, int(m.group(1)), int(m.group(3)), int(m.group(5)), int(m.group(7))]
+        r = cfg.get("max_row_count")
+        if r == "MNR": rw = [1]
+        elif r is not None: rw = [2, int(r)]
+    return st, rw
+
+
+class Shards:
+    """collects cases of one kind and writes files of at most ~180 kB"""
+    def __init__(self, kind, typ, evals, limit=180000):
+        self.kind, self.typ, self.evals, self.limit = kind, typ, evals, limit
+        self.files = []; self.cur = []; self.size = 0; self.index = []     # index: per file, list of case ids
+        self.ids = []
+    def add(self, lit, cid):
+        if self.size + len(lit) > self.limit and self.cur: self.flush()
+        self.cur.append(lit); self.ids.append(cid); self.size += len(lit) + 2
+    def flush(self):
+        if not self.cur: return
+        k = len(self.files)
+        body = ";\n".join(self.cur)
+        txt = ("From TT Require Import Base.Prelude Model.Outcome Model.ReaderGuards Spec.RobustSpec Model.GuardCases.\n"
+               f"Definition cs : list ({self.typ}) := [\n{body}].\n" +
+               "".join(f"Eval vm_compute in check_all (map {e} cs).\n" for e in self.evals))
+        p = f"{C.GEN}/Cases_C18_{self.kind}_{k}.v"
+        open(p, "w").write(txt)
+        self.files.append(p); self.index.append(self.ids)
+        self.cur = []; self.ids = []; self.size = 0
+    def count(self): return sum(len(i) for i in self.index) + len(self.ids)
+
+
+def correspondence(run, tasks, results, thorough):
+    import logging
+    logging.disable(logging.CRITICAL)
+    rng = random.Random(run.seed + 18)
+    budget = dict(srt=8_000_000, vtt=8_000_000, scc=6_000_000, stl=6_000_000) if thorough else dict(srt=700_000, vtt=700_000, scc=500_000, stl=500_000)
+    C.clean_cases("Cases_C18_")
+    sh = {
+        "srt": Shards("srt", "text * list Z * Z * list Z", ["srt_case"]),
+        "vtt": Shards("vtt", "text * list Z * Z * list Z", ["vtt_case"]),
+        "srtcur": Shards("srtcur", "Z * list Z * Z", ["srt_cursor_case", "srt_cursor_trigger_case"]),
+        "vttcur": Shards("vttcur", "Z * list Z * Z", ["vtt_cursor_case", "vtt_cursor_trigger_case"]),
+        "srtview": Shards("srtview", "text * list Z", ["srt_view_case"]),
+        "vttview": Shards("vttview", "text * list Z", ["vtt_view_case"]),
+        "scc": Shards("scc", "text * list Z * Z", ["scc_case"]),
+        "sccline": Shards("sccline", "text * Z", ["scc_line_case"]),
+        "sccword": Shards("sccword", "text * Z", ["scc_word_case"]),
+        "stl": Shards("stl", "list Z * list Z * list (Z * Z) * list Z * Z", ["stl_case", "stl_trigger_case"]),
+        "bint": Shards("bint", "list Z * Z", ["bytes_int_case"]),
+        "int16": Shards("int16", "text * Z", ["int16_case"]),
+        "spec": Shards("spec", "Z * list Z * Z", ["spec_case", "spec_strict_case"]),
+    }
+    skipped = collections.Counter(); used = collections.Counter()
+    seen_cur = set(); seen_lines = {"srt": set(), "vtt": set(), "scc": set()}
+    spec_expect_bad = set()
+
+    import ttconv.srt.reader as sr, ttconv.vtt.reader as vr
+    from ttconv.scc.line import SccLine
+    from ttconv.scc.word import SccWord
+
+    def vtt_flags(line):
+        ps = line.split()
+        cue = len(ps) >= 3 and vr.vtt_timestamp_to_secs(ps[0]) is not None and vr.vtt_timestamp_to_secs(ps[2]) is not None
+        ovf = 0
+        if len(ps) >= 3:
+            st = dict(filter(lambda x: len(x) == 2, [x.split(":") for x in ps[3:]]))
+            for key, comma in (("size", False), ("line", True), ("position", True)):
+                v = st.get(key)
+                if v is None: continue
+                v = v.split(",")[0] if comma else v
+                try: vr.parse_vtt_pct(v)
+                except OverflowError: ovf = 1
+        return [int(bool(vr._EMPTY_RE.fullmatch(line))), int(line.startswith("NOTE ")), int(line.startswith("STYLE")), int("-->" in line), int(cue), ovf]
+
+    order = list(tasks); rng.shuffle(order)
+    for t in order:
+        r = results.get(t["i"])
+        if r is None: continue
+        fmt = t["fmt"]
+        # ---- S on every run (bounded in the thorough tier: every failing run + a sample of the passing ones)
+        fl = R.failures(r)
+        if fl or not thorough or rng.random() < 0.15:
+            if r["outcome"] == "doc": rc = 0
+            elif r["outcome"] == "none": rc = -1
+            else: rc = S_CODE.get(r["outcome"].split(":", 1)[1], 12)
+            down = [S_CODE.get(f["type"], 12) for f in r["fails"]] or [0]
+            ok = 0 if fl else 1
+            sh["spec"].add(f"({C.z(rc)}, {zl(down)}, {ok})", t["i"])
+            if fl: spec_expect_bad.add(t["i"])
+        if fmt == "imsc" or t["stream"] == "depth" or len(t["data"]) > 6000: continue
+        code = outcome_code(r)
+        if code is None: skipped[fmt + ":unmodelled-exception"] += 1; continue
+        if fmt in ("srt", "vtt", "scc"):
+            try: content = R.decode_text(t["data"])
+            except UnicodeDecodeError: skipped[fmt + ":not-utf8"] += 1; continue
+            if any(0xD800 <= ord(c) <= 0xDFFF for c in content): continue
+        if fmt in ("srt", "vtt"):
+            tr = r["trace"] or []
+            if any(rec["end"] == "open" for rec in tr): skipped[fmt + ":open-trace"] += 1; continue
+            oracle = [M_CODE.get(rec["end"], 29) for rec in tr]
+            if any(rec["end"] not in M_CODE for rec in tr): skipped[fmt + ":unmodelled-exception"] += 1; continue
+            calls = [int(rec["attached"]) for rec in tr if rec["end"] == "ok"]
+            lit = f"({tx(content)}, {zl(oracle)}, {code}, {zl(calls)})"
+            if budget[fmt] >= len(lit):
+                budget[fmt] -= len(lit); sh[fmt].add(lit, t["i"]); used[fmt] += 1
+                for line in content.split("\n")[:40]:
+                    line = line + "\n"
+                    if line in seen_lines[fmt] or len(line) > 300: continue
+                    seen_lines[fmt].add(line)
+                    if fmt == "srt":
+                        fl3 = [int(bool(sr._EMPTY_RE.fullmatch(line))), int(sr._COUNTER_RE.search(line) is not None), int(sr._TIMECODE_RE.search(line) is not None)]
+                        sh["srtview"].add(f"({tx(line)}, {zl(fl3)})", line)
+                    else:
+                        sh["vttview"].add(f"({tx(line)}, {zl(vtt_flags(line))})", line)
+            for rec in tr:
+                ev = srt_events(rec["ev"]) if fmt == "srt" else vtt_events(rec["ev"])
+                if ev is None or len(ev) > 400: continue
+                if fmt == "srt" and rec["end"] == "AssertionError": skipped["srt:html.parser-assertion"] += 1; continue
+                key = (fmt, rec["attached"], tuple(ev), rec["end"])
+                if key in seen_cur: continue
+                seen_cur.add(key)
+                sh[fmt + "cur"].add(f"({int(rec['attached'])}, {zl(ev)}, {M_CODE[rec['end']]})", key)
+        elif fmt == "scc":
+            tr = r["trace"] or []
+            if any(rec["end"] not in M_CODE for rec in tr): skipped["scc:unmodelled-exception"] += 1; continue
+            oracle = [M_CODE[rec["end"]] for rec in tr]
+            lit = f"({tx(content)}, {zl(oracle)}, {code})"
+            if budget[fmt] >= len(lit):
+                budget[fmt] -= len(lit); sh["scc"].add(lit, t["i"]); used[fmt] += 1
+                for line in content.splitlines()[:40]:
+                    if line in seen_lines["scc"] or len(line) > 400: continue
+                    seen_lines["scc"].add(line)
+                    try:
+                        l = SccLine.from_str(line); lc = -1 if l is None else 100 + len(l.scc_words)
+                    except ValueError: lc = 11
+                    except IndexError: lc = 22
+                    sh["sccline"].add(f"({tx(line)}, {lc})", line)
+        elif fmt == "stl":
+            tr = r["trace"] or []
+            if any(rec["end"] not in M_CODE for rec in tr): skipped["stl:unmodelled-exception"] += 1; continue
+            oracle = [M_CODE[rec["end"]] for rec in tr]
+            st, rw = stl_cfg_codes(R.READER_CFGS["stl"][t["cfg"] % len(R.READER_CFGS["stl"])])
+            lit = f"({zl(st)}, {zl(rw)}, {rle(t['data'])}, {zl(oracle)}, {code})"
+            if budget[fmt] >= len(lit):
+                budget[fmt] -= len(lit); sh["stl"].add(lit, t["i"]); used[fmt] += 1
+
+    # ---- SccWord.from_str and int() on their own: fixed probes + random words
+    words = ["9420", "94zz", "", "1", "12345", "+1ab", "-1ab", "0x1f", "0X1F", "1_ab", "1__a", "_1ab", "1ab_", "ab\f\f", "\f\fab", "\fab\f", " ab ", "ab \t", "\tab\n", "ａｂｃｄ", "١٢٣٤",
+             "12 34"[:4], " ab ", "ab\x1c\x1d", "\x1fabc", "0_12", "0x_1", "+0x1", "ABCD", "abcg", "１２３４", "12 4", "　　ab", "a\fb\f", "\f\f\f\f", "0x", "+-12", "1e10", "00ff"]
+    alphabet = "0123456789abcdefABCDEFxX_+- \t\f\n\r\x0b\x1c\x85 ٠٩１gz"
+    for _ in range(4000 if thorough else 600):
+        words.append("".join(rng.choice(alphabet) for _ in range(rng.choice([4, 4, 4, 3, 5, 2]))))
+    for w in dict.fromkeys(words):
+        try: SccWord.from_str(w); wc = 0
+        except ValueError: wc = 11
+        except IndexError: wc = 22
+        sh["sccword"].add(f"({tx(w)}, {wc})", w)
+        if len(w) == 4: sh["int16"].add(f"({tx(w)}, {int(SccWord._is_hex_word(w))})", w)
+    balpha = b"0123456789 +-_\t\n\x0b\x0c\r\x00\xa0aA.x"
+    bprobes = [bytes([a, b]) for a in balpha for b in balpha]
+    for _ in range(3000 if thorough else 400):
+        bprobes.append(bytes(rng.choice(balpha) for _ in range(rng.choice([5, 5, 2, 3, 8]))))
+    if thorough: bprobes += [bytes([a, b]) for a in range(256) for b in range(256)]
+    for bs in dict.fromkeys(bprobes):
+        try: v = int(bs)
+        except ValueError: v = -100000
+        sh["bint"].add(f"({zl(bs)}, {C.z(v)})", bs)
+
+    for s in sh.values(): s.flush()
+    files = [p for s in sh.values() for p in s.files]
+    run.log(f"guard correspondence: {len(files)} case files (" + ", ".join(f"{k} {s.count()}" for k, s in sh.items()) + ")")
+    res = C.coqc_many(files, 1500)
+    broken = []; first = []; summary = {}
+    spec_bad = set()
+    for kind, s in sh.items():
+        n_cases = 0; bad_by_eval = [[] for _ in s.evals]
+        for p, ids in zip(s.files, s.index):
+            rc, out = res[p]
+            flat = " ".join(out.split())
+            ms = re.findall(r"=\s*\(\s*(\d+)\s*,\s*(\[[^\]]*\]|nil)\s*\)", flat)
+            if rc != 0 or len(ms) != len(s.evals) or any(int(m[0]) != len(ids) for m in ms):
+                broken.append(f"case file {os.path.basename(p)} did not evaluate: {out[-300:]}"); continue
+            n_cases += len(ids)
+            for j, (_, b) in enumerate(ms):
+                bad_by_eval[j] += [ids[int(x)] for x in re.findall(r"\d+", b)]
+        summary[kind] = dict(cases=n_cases, **{e: len(b) for e, b in zip(s.evals, bad_by_eval)})
+        for e, b in zip(s.evals, bad_by_eval):
+            if e == "spec_strict_case":
+                spec_bad = set(b); continue
+            if b:
+                broken.append(f"{e}: {len(b)} of {n_cases} cases disagree with the code; first: {str(b[0])[:200]}")
+                first += [dict(check=e, case=str(x)[:400]) for x in b[:3]]
+    if spec_bad != spec_expect_bad and not any("spec" in b for b in broken):
+        d = sorted(spec_bad ^ spec_expect_bad)[:5]
+        broken.append(f"S evaluated in Coq and the harness classification disagree on inputs {d}")
+    summary["S_rejects_runs"] = len(spec_bad)
+    summary["inputs_compared"] = dict(used); summary["inputs_skipped"] = dict(skipped)
+    C.clean_cases("Cases_C18_")
+    logging.disable(logging.NOTSET)
+    run.cov["obligations"] += 1
+    if not broken: run.cov["discharged"] += 1
+    run.log("guard correspondence:", {k: v for k, v in summary.items() if k not in ("inputs_skipped",)}, "| broken:", broken[:3])
+    by_i = {t["i"]: t for t in tasks}
+    for f in first:
+        try:
+            i = int(f["case"])
+            if i in by_i: f["input"] = by_i[i]["data"][:600].decode("utf-8", "replace"); f["format"] = by_i[i]["fmt"]; f["outcome"] = results[i]["outcome"]
+        except (ValueError, KeyError): pass
+    return dict(broken=broken, summary=summary, first=first)
